@@ -48,6 +48,19 @@ RECURSION += [
     ("eval", "function r(){ return eval('r()'); } r();"),
     ("eval-string-grows", "function r(){ return eval('1 + r()'); } r();"),
     ("mixed-cb-getter", "var o = { get p(){ return [1].map(function(){ return o.p; }); } }; o.p;"),
+    # recursion that alternates nested evaluators (eval / new Function: a VM of their own) with every other native-to-script
+    # transition: the depth accounting has to carry across VM boundaries
+    ("eval+forEach", "function r(){ [1].forEach(function(){ eval('r()'); }); } r();"),
+    ("eval+getter", "var o = { get p(){ return eval('o.p'); } }; o.p;"),
+    ("eval+valueOf", "var o = { valueOf: function(){ return eval('o + 1'); } }; o + 1;"),
+    ("eval+sort", "function r(){ [2, 1].sort(function(){ eval('r()'); return 0; }); } r();"),
+    ("eval+call", "function r(){ return r.call(null, eval('1')) + eval('r()'); } r();"),
+    ("eval+reduce", "function r(){ return [1, 2].reduce(function(a){ return a + eval('r()'); }, 0); } r();"),
+    ("Function+map", "function r(){ return [1].map(new Function('return r()')); } r();"),
+    ("Function+toString", "var o = { toString: new Function('return String(o)') }; '' + o;"),
+    ("eval-in-eval+cb", "function r(){ return eval(\"eval('[1].map(function(){ return r(); })')\"); } r();"),
+    ("replace-fn+eval", "function r(){ return 'a'.replace(/a/, function(){ return eval('r()'); }); } r();"),
+    ("JSON-getter+eval", "var o = { get p(){ return eval('JSON.stringify(o)'); } }; JSON.stringify(o);"),
 ]
 MS = [20000, 100000, 1000000, 10000000]
 
